@@ -290,6 +290,12 @@ pub fn check_request(t: &tera::Tera, req: &Req, ctx: &tera::Context, case: &dyn 
 // fixed rich instance
 
 pub fn rich_templates() -> Vec<(String, String)> {
+    let mut chain: Vec<(String, String)> = (1..40).map(|i| (format!("chain{i}.txt"), if i < 39 { format!("{i},{{% include \"chain{}.txt\" %}}", i + 1) } else { "end{{ n }}".to_string() })).collect();
+    let mut v = rich_templates_fixed();
+    v.append(&mut chain);
+    v
+}
+fn rich_templates_fixed() -> Vec<(String, String)> {
     vec![
         ("base.html".into(), "<html>{% block head %}<title>{{ title }}</title>{% endblock %}{% block body %}[{% for i in items %}{{ loop.index }}:{{ i.name }}{% if not loop.last %},{% endif %}{% endfor %}]{% endblock %}{% include \"foot.html\" %}</html>".into()),
         ("page.html".into(), "{% extends \"base.html\" %}{% block body %}{{ super() }}{% set cap %}<i>{{ user.bio }}</i>{% endset %}{{ cap }}{{ cap | upper }}{% filter upper %}x{{ user.bio }}{% block inner %}in{{ n }}{% endblock %}{% endfilter %}{{ <ui.Card title={ title } n={ n } /> }}{% <ui.Box> %}b{{ user.name }}{% </ui.Box> %}{% endblock %}".into()),
@@ -303,6 +309,8 @@ pub fn rich_templates() -> Vec<(String, String)> {
         ("blob.html".into(), "{{ blob }}|{{ [blob] }}|{% for b in blobs %}<{{ b }}>{% endfor %}|{{ blob | safe }}{% set c %}{{ blob }}{% endset %}{{ c }}".into()),
         // maps built while rendering print in sorted key order whatever their hash order: repeating the render gives the same bytes
         ("maps.html".into(), "{{ {true: title, false: n} }}|{{ {2: 1, 1: 2, \"k\": 3, true: 4, false: 5, \"a\": [n], 10: none} }}|{{ {\"b\": {true: 1, false: 2}, \"a\": {3: 1, 1: 3} } }}|{% set m = {false: 0, true: 1} %}{{ m }}{{ [m, m] }}".into()),
+        // a 40-deep include chain (well inside any nesting limit): renders from several threads must not interfere
+        ("chain0.txt".into(), "0{% include \"chain1.txt\" %}".into()),
         ("blob.txt".into(), "{{ blob }}{% include \"blob.html\" %}{{ blobs }}".into()),
         ("err_in_include.html".into(), "A{% include \"err.html\" %}B".into()),
     ]
@@ -324,7 +332,7 @@ pub fn rich_context(variant: u64) -> tera::Context {
     c
 }
 pub fn rich_requests() -> Vec<Req> {
-    let mut v: Vec<Req> = ["base.html", "page.html", "foot.html", "deep.txt", "plain.txt", "empty.html", "text.html", "err.html", "err_in_include.html", "lib.html", "nope.html", "blob.html", "blob.txt", "maps.html"].iter().map(|s| Req::Template(s.to_string())).collect();
+    let mut v: Vec<Req> = ["base.html", "page.html", "foot.html", "deep.txt", "plain.txt", "empty.html", "text.html", "err.html", "err_in_include.html", "lib.html", "nope.html", "blob.html", "blob.txt", "maps.html", "chain0.txt", "chain20.txt"].iter().map(|s| Req::Template(s.to_string())).collect();
     for (t, b) in [("page.html", "head"), ("page.html", "body"), ("page.html", "inner"), ("base.html", "body"), ("base.html", "head"), ("page.html", "nope")] {
         v.push(Req::Block(t.into(), b.into()));
     }
@@ -362,7 +370,7 @@ pub fn check_threads(t: Arc<tera::Tera>, reqs: &[Req], nctx: u64, nthreads: usiz
     let mut hs = vec![];
     for th in 0..nthreads {
         let (t, base, ctxs, reqs, barrier) = (t.clone(), base.clone(), ctxs.clone(), reqs.clone(), barrier.clone());
-        hs.push(std::thread::spawn(move || -> Result<u64, String> {
+        hs.push(std::thread::Builder::new().stack_size(64 << 20).spawn(move || -> Result<u64, String> {
             let mut s = splitmix(seed ^ th as u64);
             barrier.wait();
             let mut n = 0;
@@ -380,7 +388,7 @@ pub fn check_threads(t: Arc<tera::Tera>, reqs: &[Req], nctx: u64, nthreads: usiz
                 n += 1;
             }
             Ok(n)
-        }));
+        }).expect("spawn render thread"));
     }
     // meanwhile: clones of the instance are created and dropped, and a clone is reconfigured (must not affect the shared one)
     let t2 = t.clone();
